@@ -1,0 +1,135 @@
+//go:build verif
+
+// Contracts for package gen, read by the verifier in /verif (govc). Comment-only: this file
+// declares nothing and is compiled only with -tags verif.
+package gen
+
+// C04 / C06 / C14 / C18: the default target manager as an abstract set of relations
+// R = { (consumer, target, monitor) }. `rel` is membership in R; `tmWF` is the representation
+// invariant tying the primary map to the per-target index.
+
+//@ spec func rel(tm *defaultTargetManager, k relationKey) bool = has(tm.relations, k)
+//@ spec func idx(tm *defaultTargetManager, t any) map[relationKey]struct{} = tm.targetIndex[t]
+//@ spec func tmWF(tm *defaultTargetManager) bool = tm.relations != nil && tm.targetIndex != nil && (forall k relationKey :: has(tm.relations, k) ==> has(tm.targetIndex, k.target) && has(tm.targetIndex[k.target], k)) && (forall t any :: has(tm.targetIndex, t) ==> tm.targetIndex[t] != nil && tm.targetIndex[t] != tm.relations && len(tm.targetIndex[t]) > 0) && (forall t any, k relationKey :: has(tm.targetIndex, t) && has(tm.targetIndex[t], k) ==> k.target == t && has(tm.relations, k)) && (forall t1, t2 any :: has(tm.targetIndex, t1) && has(tm.targetIndex, t2) && t1 != t2 ==> tm.targetIndex[t1] != tm.targetIndex[t2])
+
+//@ func (tm *defaultTargetManager) AddLink
+//@   props C04
+//@   mode int
+//@   requires [wf] tmWF(tm)
+//@   ensures [added] result == nil ==> !old(rel(tm, relationKey{consumer, target, false})) && rel(tm, relationKey{consumer, target, false})
+//@   ensures [exists] result != nil ==> result == ErrTargetExist && old(rel(tm, relationKey{consumer, target, false}))
+//@   ensures [frame] forall k relationKey :: k != relationKey{consumer, target, false} || result != nil ==> rel(tm, k) == old(rel(tm, k))
+//@   ensures [wf_kept] tmWF(tm)
+
+//@ func (tm *defaultTargetManager) AddMonitor
+//@   props C04
+//@   mode int
+//@   requires [wf] tmWF(tm)
+//@   ensures [added] result == nil ==> !old(rel(tm, relationKey{consumer, target, true})) && rel(tm, relationKey{consumer, target, true})
+//@   ensures [exists] result != nil ==> result == ErrTargetExist && old(rel(tm, relationKey{consumer, target, true}))
+//@   ensures [frame] forall k relationKey :: k != relationKey{consumer, target, true} || result != nil ==> rel(tm, k) == old(rel(tm, k))
+//@   ensures [wf_kept] tmWF(tm)
+
+//@ func (tm *defaultTargetManager) RemoveLink
+//@   props C04
+//@   mode int
+//@   requires [wf] tmWF(tm)
+//@   ensures [removed] result == nil ==> old(rel(tm, relationKey{consumer, target, false})) && !rel(tm, relationKey{consumer, target, false})
+//@   ensures [unknown] result != nil ==> result == ErrTargetUnknown && !old(rel(tm, relationKey{consumer, target, false}))
+//@   ensures [frame] forall k relationKey :: k != relationKey{consumer, target, false} || result != nil ==> rel(tm, k) == old(rel(tm, k))
+//@   ensures [wf_kept] tmWF(tm)
+
+//@ func (tm *defaultTargetManager) RemoveMonitor
+//@   props C04
+//@   mode int
+//@   requires [wf] tmWF(tm)
+//@   ensures [removed] result == nil ==> old(rel(tm, relationKey{consumer, target, true})) && !rel(tm, relationKey{consumer, target, true})
+//@   ensures [unknown] result != nil ==> result == ErrTargetUnknown && !old(rel(tm, relationKey{consumer, target, true}))
+//@   ensures [frame] forall k relationKey :: k != relationKey{consumer, target, true} || result != nil ==> rel(tm, k) == old(rel(tm, k))
+//@   ensures [wf_kept] tmWF(tm)
+
+//@ func (tm *defaultTargetManager) HasLink
+//@   props C04
+//@   mode int
+//@   requires [wf] tmWF(tm)
+//@   ensures [view] result == rel(tm, relationKey{consumer, target, false})
+//@   ensures [pure] forall k relationKey :: rel(tm, k) == old(rel(tm, k))
+
+//@ func (tm *defaultTargetManager) HasMonitor
+//@   props C04
+//@   mode int
+//@   requires [wf] tmWF(tm)
+//@   ensures [view] result == rel(tm, relationKey{consumer, target, true})
+//@   ensures [pure] forall k relationKey :: rel(tm, k) == old(rel(tm, k))
+
+//@ func CreateDefaultTargetManager
+//@   props C04
+//@   mode int
+//@   ensures [empty] typeis(result, *defaultTargetManager) && tmWF(result.(*defaultTargetManager)) && (forall k relationKey :: !rel(result.(*defaultTargetManager), k))
+
+// CleanupTarget: the target goes away. Every relation on it is removed, and the two result lists
+// name exactly the consumers that had a link / a monitor on it, each exactly once.
+//@ func (tm *defaultTargetManager) CleanupTarget
+//@   props C04
+//@   mode int
+//@   requires [wf] tmWF(tm)
+//@   loop 1 invariant [rel_minus_seen] forall k relationKey :: has(tm.relations, k) <==> (old(has(tm.relations, k)) && !seen(1, k))
+//@   loop 1 invariant [index_untouched] tm.relations == old(tm.relations) && tm.targetIndex == old(tm.targetIndex) && (forall t any :: has(tm.targetIndex, t) == old(has(tm.targetIndex, t)) && tm.targetIndex[t] == old(tm.targetIndex[t])) && (forall t any, k relationKey :: old(has(tm.targetIndex, t)) ==> has(tm.targetIndex[t], k) == old(has(tm.targetIndex[t], k))) && (forall t any :: old(has(tm.targetIndex, t)) ==> len(tm.targetIndex[t]) == old(len(tm.targetIndex[t])))
+//@   loop 1 invariant [seen_sub] forall k relationKey :: seen(1, k) ==> old(has(tm.targetIndex[target], k))
+//@   loop 1 invariant [lists_apart] ptr(linkConsumers) == nil || ptr(linkConsumers) != ptr(monitorConsumers)
+//@   loop 1 invariant [links_seen] forall i int :: 0 <= i && i < len(linkConsumers) ==> seen(1, relationKey{linkConsumers[i], target, false})
+//@   loop 1 invariant [links_cover] forall c PID :: seen(1, relationKey{c, target, false}) ==> !(forall i int :: 0 <= i && i < len(linkConsumers) ==> linkConsumers[i] != c)
+//@   loop 1 invariant [links_nodup] forall i, j int :: 0 <= i && i < j && j < len(linkConsumers) ==> linkConsumers[i] != linkConsumers[j]
+//@   loop 1 invariant [mons_seen] forall i int :: 0 <= i && i < len(monitorConsumers) ==> seen(1, relationKey{monitorConsumers[i], target, true})
+//@   loop 1 invariant [mons_cover] forall c PID :: seen(1, relationKey{c, target, true}) ==> !(forall i int :: 0 <= i && i < len(monitorConsumers) ==> monitorConsumers[i] != c)
+//@   loop 1 invariant [mons_nodup] forall i, j int :: 0 <= i && i < j && j < len(monitorConsumers) ==> monitorConsumers[i] != monitorConsumers[j]
+//@   ensures [relations_on_target_gone] forall k relationKey :: rel(tm, k) <==> (old(rel(tm, k)) && k.target != target)
+//@   ensures [links_sound] forall i int, c PID :: 0 <= i && i < len(result.0) && result.0[i] == c ==> old(rel(tm, relationKey{c, target, false}))
+//@   ensures [links_complete] forall c PID :: old(rel(tm, relationKey{c, target, false})) ==> !(forall i int :: 0 <= i && i < len(result.0) ==> result.0[i] != c)
+//@   ensures [links_once] forall i, j int :: 0 <= i && i < j && j < len(result.0) ==> result.0[i] != result.0[j]
+//@   ensures [monitors_sound] forall i int, c PID :: 0 <= i && i < len(result.1) && result.1[i] == c ==> old(rel(tm, relationKey{c, target, true}))
+//@   ensures [monitors_complete] forall c PID :: old(rel(tm, relationKey{c, target, true})) ==> !(forall i int :: 0 <= i && i < len(result.1) ==> result.1[i] != c)
+//@   ensures [monitors_once] forall i, j int :: 0 <= i && i < j && j < len(result.1) ==> result.1[i] != result.1[j]
+//@   ensures [wf_kept] tmWF(tm)
+
+// CleanupConsumer: the consumer goes away. Every relation it requested is removed; the result
+// lists name exactly its link / monitor targets, each exactly once.
+//@ func (tm *defaultTargetManager) CleanupConsumer
+//@   props C04 C06
+//@   mode int
+//@   requires [wf] tmWF(tm)
+//@   loop 1 invariant [fields] tm.relations == old(tm.relations) && tm.targetIndex == old(tm.targetIndex)
+//@   loop 1 invariant [wf_inv] tmWF(tm)
+//@   loop 1 invariant [rel_minus_seen] forall k relationKey :: has(tm.relations, k) <==> (old(has(tm.relations, k)) && !(seen(1, k) && k.consumer == consumer))
+//@   loop 1 invariant [seen_sub] forall k relationKey :: seen(1, k) ==> old(has(tm.relations, k))
+//@   loop 1 invariant [lists_apart] ptr(linkTargets) == nil || ptr(linkTargets) != ptr(monitorTargets)
+//@   loop 1 invariant [links_seen] forall i int :: 0 <= i && i < len(linkTargets) ==> seen(1, relationKey{consumer, linkTargets[i], false})
+//@   loop 1 invariant [links_cover] forall t any :: seen(1, relationKey{consumer, t, false}) ==> !(forall i int :: 0 <= i && i < len(linkTargets) ==> linkTargets[i] != t)
+//@   loop 1 invariant [links_nodup] forall i, j int :: 0 <= i && i < j && j < len(linkTargets) ==> linkTargets[i] != linkTargets[j]
+//@   loop 1 invariant [mons_seen] forall i int :: 0 <= i && i < len(monitorTargets) ==> seen(1, relationKey{consumer, monitorTargets[i], true})
+//@   loop 1 invariant [mons_cover] forall t any :: seen(1, relationKey{consumer, t, true}) ==> !(forall i int :: 0 <= i && i < len(monitorTargets) ==> monitorTargets[i] != t)
+//@   loop 1 invariant [mons_nodup] forall i, j int :: 0 <= i && i < j && j < len(monitorTargets) ==> monitorTargets[i] != monitorTargets[j]
+//@   ensures [relations_of_consumer_gone] forall k relationKey :: rel(tm, k) <==> (old(rel(tm, k)) && k.consumer != consumer)
+//@   ensures [links_sound] forall i int, t any :: 0 <= i && i < len(result.0) && result.0[i] == t ==> old(rel(tm, relationKey{consumer, t, false}))
+//@   ensures [links_complete] forall t any :: old(rel(tm, relationKey{consumer, t, false})) ==> !(forall i int :: 0 <= i && i < len(result.0) ==> result.0[i] != t)
+//@   ensures [links_once] forall i, j int :: 0 <= i && i < j && j < len(result.0) ==> result.0[i] != result.0[j]
+//@   ensures [monitors_sound] forall i int, t any :: 0 <= i && i < len(result.1) && result.1[i] == t ==> old(rel(tm, relationKey{consumer, t, true}))
+//@   ensures [monitors_complete] forall t any :: old(rel(tm, relationKey{consumer, t, true})) ==> !(forall i int :: 0 <= i && i < len(result.1) ==> result.1[i] != t)
+//@   ensures [monitors_once] forall i, j int :: 0 <= i && i < j && j < len(result.1) ==> result.1[i] != result.1[j]
+//@   ensures [wf_kept] tmWF(tm)
+
+// GetConsumersForTarget (C18 fan-out list): every process related to the target, each exactly once
+// even when it holds both a link and a monitor on it.
+//@ func (tm *defaultTargetManager) GetConsumersForTarget
+//@   props C04 C18
+//@   mode int
+//@   requires [wf] tmWF(tm)
+//@   loop 1 invariant [sound_so_far] forall i int :: 0 <= i && i < len(consumers) ==> (seen(1, relationKey{consumers[i], target, false}) || seen(1, relationKey{consumers[i], target, true}))
+//@   loop 1 invariant [cover_so_far] forall k relationKey :: seen(1, k) ==> has(listed, k.consumer)
+//@   loop 1 invariant [listed_is_list] listed != nil && (forall c PID :: has(listed, c) <==> !(forall i int :: 0 <= i && i < len(consumers) ==> consumers[i] != c))
+//@   loop 1 invariant [nodup_so_far] forall i, j int :: 0 <= i && i < j && j < len(consumers) ==> consumers[i] != consumers[j]
+//@   loop 1 invariant [seen_sub] forall k relationKey :: seen(1, k) ==> has(tm.targetIndex[target], k)
+//@   ensures [pure] forall k relationKey :: rel(tm, k) == old(rel(tm, k))
+//@   ensures [sound] forall i int, c PID :: 0 <= i && i < len(result) && result[i] == c ==> (rel(tm, relationKey{c, target, false}) || rel(tm, relationKey{c, target, true}))
+//@   ensures [complete] forall c PID :: rel(tm, relationKey{c, target, false}) || rel(tm, relationKey{c, target, true}) ==> !(forall i int :: 0 <= i && i < len(result) ==> result[i] != c)
+//@   ensures [once] forall i, j int :: 0 <= i && i < j && j < len(result) ==> result[i] != result[j]
